@@ -65,6 +65,15 @@ theorem c01_step_driver_dispatch :
       dispatchResetIntegrator = 0 ∧ dispatchResetCalls.Nodup) :=
   ⟨Dispatch.enumeration, Dispatch.no_crossed_case, Dispatch.reset_complete⟩
 
+/-- the user-ODE sub-stepping loop at the end of `reb_integrator_part2`, executed by the translator for five valuations of
+    (t, r->dt, r->dt_last_done, dt_proposed) with r->dt ≠ r->dt_last_done (adaptive integrator) and both signs: the sub-steps start at
+    `t − dt_last_done`, tile exactly the step just done, respect `|dt_proposed|`, and `r->t` is restored -/
+theorem c01_user_ode_interval : odeLoop.length = 5 ∧ ∀ e ∈ odeLoop,
+    (e.2.1.head?.map (·.1)) = some (e.1.1 - e.1.2.2.1) ∧ Dispatch.contiguous e.2.1 = true ∧
+    (e.2.1.map (·.2)).foldl (· + ·) 0 = e.1.2.2.1 ∧ e.2.2 = e.1.1 ∧
+    (∀ c ∈ e.2.1, (0 < c.2) = (0 < e.1.2.2.1) ∧ (e.1.2.2.2 = 0 ∨ Dispatch.absR c.2 ≤ Dispatch.absR e.1.2.2.2)) ∧
+    (e.1.2.2.2 = 0 → e.2.1.length = 1) := Dispatch.ode_loop_interval
+
 /-! ### SABA (18 types) -/
 /-- every type has the documented number of stages, and that many kicks and one more drift per step -/
 theorem c01_saba_stages : (∀ t ∈ sabaTypes, sabaStages.lookup t.2.1 = some t.2.2 ∧ (sabaStep.lookup t.2.1).isSome) ∧
